@@ -4,8 +4,10 @@ Decides the structural clause: floor/ceil/nint/frac/mod (real and complex)
 return, on every path, a special value or a SINGLE rounding -- at the
 requested precision and in the caller's rounding mode -- of the exact result
 (B-R1 bounded, B-R3 mode threading, B-R4 single rounding); each public name is
-wired to the like-named kernel; int() truncates.  The integer-part arithmetic
-itself (mpf_round_int, the modulo reduction) is not decided.
+wired to the like-named kernel; int() truncates; special values follow the
+table (S-R1); the modulo reduction never writes out a number as large as the
+exponent gap of its operands (M-R1).  The integer-part arithmetic itself
+(mpf_round_int, the value of the modulo reduction) is not decided.
 """
 import ast
 
@@ -105,3 +107,88 @@ def run(run, ix, tier):
     else:
         run.fail(Finding('H-C06', CTXPY, '_mpf.__int__', 'def __int__',
                          'int() does not call to_int(x) with the default truncation', line=f.lineno))
+    check_gap_shifts(run, ix)
+
+
+# --------------------------------------------------------------------------- M-R1
+EXPN = ('sexp', 'texp', 'exp', 'base', 'offset')
+
+
+def _conjuncts(t):
+    if isinstance(t, ast.BoolOp) and isinstance(t.op, ast.And):
+        out = []
+        for v in t.values:
+            out += _conjuncts(v)
+        return out
+    return [t]
+
+
+def _always_leaves(body):
+    last = body[-1] if body else None
+    if isinstance(last, (ast.Return, ast.Raise)):
+        return True
+    if isinstance(last, ast.If) and last.orelse:
+        return _always_leaves(last.body) and _always_leaves(last.orelse)
+    return False
+
+
+def check_gap_shifts(run, ix):
+    """M-R1.  The remainder is smaller than the divisor, so mpf_mod must never write out a number whose
+    size is the DIFFERENCE of the two exponents (2**(10**12) % 3 has a one-digit answer).  Every left shift
+    in mpf_mod whose amount mentions an exponent must be gap-guarded: an earlier statement of the function
+    body is an `if` that always leaves and whose test consists only of (a) the truth value of the shifted
+    mantissa and (b) a comparison `hi > lo + <bit count>` of the two exponents in the direction of the shift
+    -- a further conjunct (equal signs, a particular mantissa) leaves the other cases unguarded.  A modular
+    power `pow(2, gap, m)` is bounded by construction."""
+    run.rule('M-R1', floor=2, desc='no operand of the modulo reduction is as large as the exponent gap')
+    f = ix.func(LIBMPF, 'mpf_mod')
+    body = f.node.body
+    guards = []            # (stmt index, set of normalised conjuncts)
+    for i, st in enumerate(body):
+        if isinstance(st, ast.If) and not st.orelse and _always_leaves(st.body):
+            guards.append((i, [norm(c) for c in _conjuncts(st.test)]))
+
+    def top_index(node):
+        p = node
+        while getattr(p, '_parent', None) is not f.node:
+            p = p._parent
+        return body.index(p)
+
+    for x in _walk_own(f.node):
+        if isinstance(x, ast.Call) and norm(x.func) == 'pow' and len(x.args) == 3 and \
+                any(isinstance(n, ast.Name) and n.id in EXPN for n in ast.walk(x.args[1])):
+            run.ok('M-R1', 'mpf_mod: %s reduces the power of two modulo the divisor' % norm(x))
+        if not (isinstance(x, ast.BinOp) and isinstance(x.op, ast.LShift)):
+            continue
+        names = {n.id for n in ast.walk(x.right) if isinstance(n, ast.Name)}
+        if not names & set(EXPN):
+            continue
+        # which exponent grows the shift: A in `A - base` / `A - B`
+        amt = x.right
+        if not (isinstance(amt, ast.BinOp) and isinstance(amt.op, ast.Sub) and isinstance(amt.left, ast.Name)
+                and amt.left.id in ('sexp', 'texp')):
+            run.fail(Finding('M-R1', LIBMPF, 'mpf_mod', norm(x), 'left shift by an exponent expression of a form '
+                             'the rule cannot bound', line=x.lineno))
+            continue
+        hi = amt.left.id
+        lo = 'texp' if hi == 'sexp' else 'sexp'
+        lobc = 'tbc' if hi == 'sexp' else 'sbc'
+        src = norm(x.left)
+        want_cmp = {'%s > %s + %s' % (hi, lo, lobc), '%s + %s < %s' % (lo, lobc, hi)}
+        idx = top_index(x)
+        good = None
+        for i, conj in guards:
+            if i >= idx:
+                continue
+            rest = [c for c in conj if c not in want_cmp]
+            if len(rest) < len(conj) and all(c == src for c in rest):
+                good = body[i]
+        if good is not None:
+            run.ok('M-R1', 'mpf_mod: `%s` is reached only with %s <= %s + %s (line %d leaves otherwise)'
+                   % (norm(x), hi, lo, lobc, good.lineno))
+        else:
+            run.fail(Finding('M-R1', LIBMPF, 'mpf_mod', norm(x), 'the shift materialises 2**(%s - %s): no earlier '
+                             'exit leaves for every operand pair with %s > %s + %s (a test with further '
+                             'conditions, such as equal signs or a particular mantissa, does not cover the '
+                             'other pairs), so x %% y needs memory proportional to the exponent gap'
+                             % (hi, lo, hi, lo, lobc), line=x.lineno))
